@@ -62,6 +62,10 @@ pub fn eval(job: &Job) -> JobResult {
         "C02" | "C03" => eval_c02_c03(job),
         "C04" => eval_c04(job),
         "C05" => eval_c05(job),
+        "C13" => eval_c13(job),
+        "C14" => eval_c14(job),
+        "C16" => eval_c16(job),
+        "C15" => eval_c15(job),
         "C07" | "C08" | "C09" | "C10" | "C11" => eval_conf(job),
         other => JobResult { machinery_error: Some(format!("unknown check {}", other)), ..Default::default() },
     };
@@ -411,6 +415,571 @@ fn eval_c04(job: &Job) -> JobResult {
     } else {
         let kind = if sum.verdict == Verdict::Race { "false_race" } else { "unexpected_verdict" };
         res.violations.push(viol(kind, sum.verdict.short(), "Ok".into(), msg, refinfo));
+    }
+    res
+}
+
+// ------------------------------------------------------------------------------------------
+// C14: termination, no repeated execution, depth-first order (streaming over hook H1)
+// ------------------------------------------------------------------------------------------
+
+use loom::verif::{Branch, BranchKind};
+
+fn bk(b: &Branch) -> (u8, u8) {
+    (
+        match b.kind {
+            BranchKind::Schedule => 0,
+            BranchKind::Load => 1,
+            BranchKind::Spurious => 2,
+        },
+        b.chosen,
+    )
+}
+
+pub fn fmt_path(p: &[Branch]) -> String {
+    p.iter()
+        .map(|b| match b.kind {
+            BranchKind::Schedule => format!("S{}", if b.chosen == 255 { "-".to_string() } else { b.chosen.to_string() }),
+            BranchKind::Load => format!("L{}", b.chosen),
+            BranchKind::Spurious => format!("P{}", b.chosen),
+        })
+        .collect::<Vec<_>>()
+        .join(" ")
+}
+
+/// Streaming depth-first-order oracle: O(depth) memory.
+#[derive(Default)]
+pub struct DfsOracle {
+    prev: Vec<(u8, u8)>,
+    /// alternatives already taken at each depth of the current prefix
+    taken: Vec<Vec<(u8, u8)>>,
+    pub paths: u64,
+    pub max_depth: usize,
+}
+
+impl DfsOracle {
+    /// returns a violation description
+    pub fn feed(&mut self, path: &[Branch]) -> Option<(String, String)> {
+        let cur: Vec<(u8, u8)> = path.iter().map(bk).collect();
+        self.paths += 1;
+        self.max_depth = self.max_depth.max(cur.len());
+        if self.paths == 1 {
+            self.taken = cur.iter().map(|c| vec![*c]).collect();
+            self.prev = cur;
+            return None;
+        }
+        let k = match (0..cur.len().min(self.prev.len())).find(|&i| cur[i] != self.prev[i]) {
+            Some(k) => k,
+            None => {
+                let kind = if cur.len() == self.prev.len() { "repeated_path" } else { "prefix_path" };
+                return Some((kind.to_string(), format!("iteration {} follows {} decisions already followed by iteration {}", self.paths, cur.len().min(self.prev.len()), self.paths - 1)));
+            }
+        };
+        if cur[k].0 != self.prev[k].0 {
+            return Some(("nondeterministic_branch_kind".to_string(), format!("depth {}: kind {} after kind {}", k, cur[k].0, self.prev[k].0)));
+        }
+        if self.taken[k].contains(&cur[k]) {
+            return Some(("not_depth_first".to_string(), format!("depth {}: alternative {:?} was already explored under this prefix", k, cur[k])));
+        }
+        self.taken.truncate(k + 1);
+        self.taken[k].push(cur[k]);
+        for c in &cur[k + 1..] {
+            self.taken.push(vec![*c]);
+        }
+        self.prev = cur;
+        None
+    }
+}
+
+fn eval_c14(job: &Job) -> JobResult {
+    let p = &job.program;
+    let mut res = JobResult::default();
+    let oracle = std::rc::Rc::new(std::cell::RefCell::new(DfsOracle::default()));
+    let o2 = oracle.clone();
+    let per_iter: Box<dyn FnMut(&IterData) -> Option<Viol>> = Box::new(move |it: &IterData| {
+        let r = o2.borrow_mut().feed(&it.path);
+        r.map(|(kind, what)| viol(&kind, "path".into(), "each iteration follows a fresh decision sequence, in depth-first order".into(), format!("{} (iteration {}: {})", what, it.index, fmt_path(&it.path)), json!({})))
+    });
+    let (sum, col) = run_loom(p, &job.cfg, Some(per_iter));
+    res.loom_iterations = col.iters;
+    res.verdict = sum.verdict.short();
+    res.capped = sum.verdict == Verdict::Capped;
+    let o = oracle.borrow();
+    // the reference side here is the trie of decision paths itself: one state per distinct
+    // prefix extension, one transition per decision
+    res.states = o.paths;
+    res.transitions = col.iters * o.max_depth as u64;
+    res.traces_validated = col.accepted;
+    res.nontrivial = col.iters >= 2;
+    res.ref_outcomes = o.paths;
+    res.sample = json!({"program": p.text(), "iterations": col.iters, "distinct_paths": o.paths, "max_depth": o.max_depth, "loom_verdict": res.verdict});
+    for v in &col.iter_viols {
+        res.violations.push(v.clone());
+    }
+    if !res.capped && !matches!(sum.verdict, Verdict::Ok | Verdict::Deadlock | Verdict::Race | Verdict::Leak(_)) {
+        res.violations.push(viol("unexpected_verdict", sum.verdict.short(), "model returns (or reports a deadlock/race/leak of the program)".into(), sum.message.lines().next().unwrap_or("").to_string(), json!({})));
+    }
+    res
+}
+
+// ------------------------------------------------------------------------------------------
+// C15: preemption bound
+// ------------------------------------------------------------------------------------------
+
+/// Count preemptions of one iteration from the raw H1 data: a switch away from the thread chosen at
+/// the previous schedule branch while that thread is still enabled (not Disabled, not Yield).
+/// Also checks loom's own `preemptions` field (pre-emptions before each branch).
+pub fn count_preemptions(path: &[Branch]) -> (u32, Option<String>) {
+    let mut prev: Option<u8> = None;
+    let mut count = 0u32;
+    let mut mismatch = None;
+    for (i, b) in path.iter().enumerate() {
+        if b.kind != BranchKind::Schedule {
+            continue;
+        }
+        if b.preemptions as u32 != count && mismatch.is_none() {
+            mismatch = Some(format!("branch {}: loom's preemptions field is {} but {} switches away from an enabled thread precede it", i, b.preemptions, count));
+        }
+        if let Some(pt) = prev {
+            let st = b.threads[pt as usize];
+            let enabled = st != loom::verif::thread_state::DISABLED && st != loom::verif::thread_state::YIELD;
+            if b.chosen != 255 && b.chosen != pt && enabled {
+                count += 1;
+            }
+        }
+        if b.chosen != 255 {
+            prev = Some(b.chosen);
+        }
+    }
+    (count, mismatch)
+}
+
+fn eval_c15(job: &Job) -> JobResult {
+    let p = &job.program;
+    let mut res = JobResult::default();
+    let nops = p.nops();
+    let mut bounds: Vec<Option<usize>> = vec![Some(0), Some(1), Some(2), Some(3), Some(4), Some(5), Some(6)];
+    if nops > 6 {
+        bounds.push(Some(nops));
+    }
+    bounds.push(None);
+    let mut sets: Vec<std::collections::BTreeSet<Outcome>> = vec![];
+    let mut verdicts = vec![];
+    let mut sample_rows = vec![];
+    for b in &bounds {
+        let mut cfg = job.cfg.clone();
+        cfg.preemption_bound = *b;
+        let bound = *b;
+        let per_iter: Box<dyn FnMut(&IterData) -> Option<Viol>> = Box::new(move |it: &IterData| {
+            let (n, mismatch) = count_preemptions(&it.path);
+            // loom's own counter also counts "a different thread than the default one was picked
+            // after the running thread blocked"; it may exceed the recount (conservative), which
+            // the property allows. Only the recount is compared with the bound.
+            let _ = mismatch;
+            if let Some(bd) = bound {
+                if n as usize > bd {
+                    return Some(viol("bound_exceeded", format!("bound={} preemptions={}", bd, n), format!("at most {} switches away from a runnable thread", bd), format!("iteration {} has {}", it.index, n), json!({"path": fmt_path(&it.path)})));
+                }
+            }
+            None
+        });
+        let (sum, col) = run_loom(p, &cfg, Some(per_iter));
+        res.loom_iterations += col.iters;
+        res.traces_validated += col.accepted;
+        if sum.verdict == Verdict::Capped {
+            res.capped = true;
+        }
+        for v in &col.iter_viols {
+            res.violations.push(v.clone());
+        }
+        sample_rows.push(json!({"bound": b, "iterations": col.iters, "outcomes": col.outcomes.len(), "verdict": sum.verdict.short()}));
+        verdicts.push(sum.verdict.clone());
+        sets.push(col.outcomes.keys().cloned().collect());
+    }
+    res.verdict = verdicts.last().unwrap().short();
+    let full = sets.last().unwrap().clone();
+    res.states = sets.iter().map(|s| s.len() as u64).sum::<u64>().max(1);
+    res.transitions = res.loom_iterations.max(1);
+    res.ref_outcomes = full.len() as u64;
+    res.nontrivial = full.len() >= 2 && sets[0].len() < full.len();
+    res.sample = json!({"program": p.text(), "by_bound": sample_rows});
+    if res.capped {
+        return res;
+    }
+    let all_ok = verdicts.iter().all(|v| *v == Verdict::Ok);
+    if !all_ok {
+        // programs with a deadlock etc.: only the per-iteration bound is checked
+        res.dont_care = true;
+        return res;
+    }
+    for (i, b) in bounds.iter().enumerate() {
+        if b.is_none() {
+            continue;
+        }
+        for o in &sets[i] {
+            if !full.contains(o) {
+                res.violations.push(viol("not_subset_of_unbounded", format!("bound={:?} {}", b, fmt_outcome(o)), "L_n ⊆ L_unbounded".into(), "outcome only found with the bound".into(), json!({})));
+            }
+            if i + 1 < bounds.len() && !sets[i + 1].contains(o) {
+                res.violations.push(viol("not_monotone", format!("bound={:?} {}", b, fmt_outcome(o)), "L_n ⊆ L_{n+1}".into(), "outcome lost when the bound grows".into(), json!({})));
+            }
+        }
+        if let Some(n) = b {
+            if *n >= nops && sets[i] != full {
+                for o in full.difference(&sets[i]) {
+                    res.violations.push(viol("limit_not_reached", format!("bound={} {}", n, fmt_outcome(o)), "L_n = L_unbounded for n >= #ops".into(), "outcome missing".into(), json!({})));
+                }
+            }
+        }
+    }
+    res
+}
+
+// ------------------------------------------------------------------------------------------
+// iteration sequences (C13, C16, C19)
+// ------------------------------------------------------------------------------------------
+
+/// One iteration as text: decision path, outcome, completion history
+pub fn iter_sig(it: &IterData) -> String {
+    format!("{} | {} | {}{}", fmt_path(&it.path), fmt_outcome(&it.results), crate::accept::fmt_history(&it.history), if it.panicked { " | PANICKED" } else { "" })
+}
+
+#[derive(Default)]
+pub struct SeqSink {
+    pub sigs: Vec<String>,
+    pub notes: Vec<Vec<(u8, u64, u64)>>,
+}
+
+impl IterSink for SeqSink {
+    fn on_iter(&mut self, it: &IterData) {
+        self.sigs.push(iter_sig(it));
+        self.notes.push(it.notes.clone());
+    }
+}
+
+pub fn run_seq(p: &Program, cfg: &subject::Cfg) -> (subject::RunSummary, SeqSink) {
+    subject::run(p, cfg, SeqSink::default())
+}
+
+fn tmpdir() -> String {
+    let d = format!("/tmp/vmc-{}-{:?}", std::process::id(), std::thread::current().id()).replace("ThreadId(", "t").replace(')', "");
+    let _ = std::fs::create_dir_all(&d);
+    d
+}
+
+fn clean(dir: &str) {
+    let _ = std::fs::remove_dir_all(dir);
+}
+
+// ------------------------------------------------------------------------------------------
+// C13: deterministic and resumable exploration
+// ------------------------------------------------------------------------------------------
+
+fn eval_c13(job: &Job) -> JobResult {
+    let p = &job.program;
+    let mut res = JobResult::default();
+    let base = job.cfg.clone();
+    let (sum1, s1) = run_seq(p, &base);
+    let (sum2, s2) = run_seq(p, &base);
+    let n = s1.sigs.len();
+    res.loom_iterations = (s1.sigs.len() + s2.sigs.len()) as u64;
+    res.verdict = sum1.verdict.short();
+    res.nontrivial = n >= 3;
+    res.states = n as u64;
+    res.transitions = n as u64;
+    res.sample = json!({"program": p.text(), "iterations": n, "verdict": res.verdict, "first": s1.sigs.first(), "last": s1.sigs.last()});
+    if sum1.verdict == Verdict::Capped {
+        res.capped = true;
+        return res;
+    }
+    if s1.sigs != s2.sigs || sum1.verdict != sum2.verdict {
+        let k = (0..n.min(s2.sigs.len())).find(|&i| s1.sigs[i] != s2.sigs[i]).unwrap_or(n.min(s2.sigs.len()));
+        res.violations.push(viol("nondeterministic", "two full runs differ".into(), "the same executions in the same order".into(), format!("first difference at iteration {}", k + 1), json!({"run1": s1.sigs.get(k), "run2": s2.sigs.get(k), "n1": n, "n2": s2.sigs.len()})));
+        return res;
+    }
+    res.traces_validated += n as u64;
+    if sum1.verdict != Verdict::Ok {
+        // resumption is only defined for runs that complete
+        return res;
+    }
+    let dir = tmpdir();
+    let intervals: Vec<usize> = job.extra.get("intervals").and_then(|v| serde_json::from_value(v.clone()).ok()).unwrap_or(vec![1, 2, 3, 7]);
+    let mut stop_stride: usize = job.extra.get("stop_stride").and_then(|v| v.as_u64()).unwrap_or(1) as usize;
+    if stop_stride == 0 {
+        // adaptive: about 30 stop points per interval (always including k = 1)
+        stop_stride = (n / 30).max(1);
+    }
+    'outer: for &c in &intervals {
+        let mut k = 1;
+        while k <= n {
+            let file = format!("{}/ckpt-{}-{}.json", dir, c, k);
+            let _ = std::fs::remove_file(&file);
+            let mut cfg = base.clone();
+            cfg.checkpoint_file = Some(file.clone());
+            cfg.checkpoint_interval = Some(c);
+            cfg.stop_at_iter = Some(k);
+            let (sa, a) = run_seq(p, &cfg);
+            res.loom_iterations += a.sigs.len() as u64;
+            if sa.verdict != Verdict::User(9999) {
+                res.violations.push(viol("stop_not_propagated", format!("c={} k={}", c, k), "the injected panic unwinds out of the model".into(), sa.verdict.short(), json!({})));
+                break 'outer;
+            }
+            // the interrupted run itself must be a prefix of the uninterrupted one
+            let pre_ok = a.sigs.len() == k && a.sigs[..k - 1] == s1.sigs[..k - 1];
+            if !pre_ok {
+                res.violations.push(viol("prefix_differs", format!("c={} k={}", c, k), "the interrupted run visits the first k-1 executions of the uninterrupted run".into(), format!("{} iterations reported", a.sigs.len()), json!({})));
+                break 'outer;
+            }
+            // resume
+            let boundary = if k >= c { c * (k / c) } else { 1 };
+            let mut cfg2 = base.clone();
+            cfg2.checkpoint_file = Some(file.clone());
+            cfg2.checkpoint_interval = Some(c);
+            let (sb, b) = run_seq(p, &cfg2);
+            res.loom_iterations += b.sigs.len() as u64;
+            let expect = &s1.sigs[boundary - 1..];
+            if sb.verdict != Verdict::Ok || b.sigs[..] != expect[..] {
+                let d = (0..b.sigs.len().min(expect.len())).find(|&i| b.sigs[i] != expect[i]);
+                res.violations.push(viol(
+                    "resume_differs",
+                    format!("c={} k={}", c, k),
+                    format!("the resumed run visits executions {}..={} of the uninterrupted run, in order", boundary, n),
+                    format!("{} iterations, verdict {}, first difference at resumed iteration {:?}", b.sigs.len(), sb.verdict.short(), d.map(|x| x + 1)),
+                    json!({"expected_first": expect.first(), "got_first": b.sigs.first(), "expected_len": expect.len()}),
+                ));
+                break 'outer;
+            }
+            res.traces_validated += b.sigs.len() as u64;
+            let _ = std::fs::remove_file(&file);
+            k += stop_stride;
+        }
+    }
+    // failing variants: "assert outcome != o" with interval 1 must fail again first thing after loading
+    let mut outcomes: Vec<String> = vec![];
+    for s in &s1.sigs {
+        let o = s.split(" | ").nth(1).unwrap_or("").to_string();
+        if !outcomes.contains(&o) {
+            outcomes.push(o);
+        }
+    }
+    for (oi, o) in outcomes.iter().enumerate() {
+        let file = format!("{}/fail-{}.json", dir, oi);
+        let _ = std::fs::remove_file(&file);
+        let mut cfg = base.clone();
+        cfg.checkpoint_file = Some(file.clone());
+        cfg.checkpoint_interval = Some(1);
+        cfg.fail_outcome = Some(o.clone());
+        let (sa, a) = run_seq(p, &cfg);
+        res.loom_iterations += a.sigs.len() as u64;
+        let first_idx = s1.sigs.iter().position(|s| s.split(" | ").nth(1) == Some(o.as_str())).unwrap();
+        if sa.verdict != Verdict::User(7777) || a.sigs.len() != first_idx + 1 {
+            res.violations.push(viol("failure_not_propagated", format!("outcome {}", o), format!("the run fails in iteration {}", first_idx + 1), format!("verdict {} after {} iterations", sa.verdict.short(), a.sigs.len()), json!({})));
+            break;
+        }
+        let (sb, b) = run_seq(p, &cfg);
+        res.loom_iterations += b.sigs.len() as u64;
+        // the failing iteration ends before the main thread's final (thread-exit) schedule branch
+        let strip = |s: &String| s.replace(" | PANICKED", "").replace(" S- | ", " | ");
+        if sb.verdict != Verdict::User(7777) || b.sigs.len() != 1 || strip(&b.sigs[0]) != strip(&s1.sigs[first_idx]) {
+            res.violations.push(viol(
+                "failure_not_reproduced",
+                format!("outcome {}", o),
+                "the stored checkpoint of a failing iteration reproduces that failure as the first iteration after loading".into(),
+                format!("verdict {} after {} iterations", sb.verdict.short(), b.sigs.len()),
+                json!({"expected": s1.sigs[first_idx], "got": b.sigs.first()}),
+            ));
+            break;
+        }
+        res.traces_validated += 1;
+        let _ = std::fs::remove_file(&file);
+    }
+    clean(&dir);
+    res
+}
+
+// ------------------------------------------------------------------------------------------
+// C16: iterations and model runs are isolated
+// ------------------------------------------------------------------------------------------
+
+#[derive(serde::Serialize, serde::Deserialize, Default, Clone, PartialEq, Debug)]
+pub struct SeqReport {
+    pub verdict: String,
+    pub sigs: Vec<String>,
+    pub notes: Vec<Vec<(u8, u64, u64)>>,
+}
+
+pub fn seq_report(p: &Program, cfg: &subject::Cfg) -> SeqReport {
+    let (sum, s) = run_seq(p, cfg);
+    SeqReport { verdict: sum.verdict.short(), sigs: s.sigs, notes: s.notes }
+}
+
+/// Run (program, cfg) in a brand-new process and return what it saw.
+pub fn fresh_process_seq(p: &Program, cfg: &subject::Cfg) -> Result<SeqReport, String> {
+    use std::io::Write;
+    let exe = std::env::current_exe().map_err(|e| e.to_string())?;
+    let mut child = std::process::Command::new(exe)
+        .arg("oneshot")
+        .env_remove("RUST_BACKTRACE")
+        .stdin(std::process::Stdio::piped())
+        .stdout(std::process::Stdio::piped())
+        .stderr(std::process::Stdio::null())
+        .spawn()
+        .map_err(|e| e.to_string())?;
+    let input = serde_json::to_string(&json!({"program": p, "cfg": cfg})).unwrap();
+    child.stdin.take().unwrap().write_all(input.as_bytes()).map_err(|e| e.to_string())?;
+    let out = child.wait_with_output().map_err(|e| e.to_string())?;
+    if !out.status.success() {
+        return Err(format!("fresh process died: {}", out.status));
+    }
+    serde_json::from_slice(&out.stdout).map_err(|e| format!("bad oneshot output: {}", e))
+}
+
+pub fn oneshot_main() {
+    std::panic::set_hook(Box::new(|_| {}));
+    let mut input = String::new();
+    use std::io::Read;
+    std::io::stdin().read_to_string(&mut input).expect("stdin");
+    let v: serde_json::Value = serde_json::from_str(&input).expect("json");
+    let p: Program = serde_json::from_value(v["program"].clone()).expect("program");
+    let cfg: subject::Cfg = serde_json::from_value(v["cfg"].clone()).expect("cfg");
+    let r = seq_report(&p, &cfg);
+    println!("{}", serde_json::to_string(&r).unwrap());
+}
+
+fn first_diff(a: &[String], b: &[String]) -> String {
+    match (0..a.len().min(b.len())).find(|&i| a[i] != b[i]) {
+        Some(i) => format!("iteration {}: expected `{}` got `{}`", i + 1, a[i], b[i]),
+        None => format!("lengths {} vs {}", a.len(), b.len()),
+    }
+}
+
+fn eval_c16(job: &Job) -> JobResult {
+    let p = &job.program;
+    let mut res = JobResult::default();
+    let mode = job.extra.get("mode").and_then(|v| v.as_str()).unwrap_or("isolated").to_string();
+    let cfg = job.cfg.clone();
+    let solo_p = match fresh_process_seq(p, &cfg) {
+        Ok(r) => r,
+        Err(e) => {
+            res.violations.push(viol("aborted", "process".into(), "a model run ends by returning or unwinding".into(), e, json!({})));
+            return res;
+        }
+    };
+    res.states = solo_p.sigs.len() as u64;
+    res.transitions = solo_p.sigs.len() as u64;
+    res.loom_iterations = solo_p.sigs.len() as u64;
+    res.verdict = solo_p.verdict.clone();
+    res.nontrivial = solo_p.sigs.len() >= 2;
+    res.sample = json!({"mode": mode, "program": p.text(), "iterations": solo_p.sigs.len(), "verdict": solo_p.verdict});
+    if solo_p.verdict == "Capped" {
+        res.capped = true;
+        return res;
+    }
+    match mode.as_str() {
+        "pair" | "concurrent" => {
+            let q: Program = serde_json::from_value(job.extra["other"].clone()).expect("other program");
+            let solo_q = match fresh_process_seq(&q, &cfg) {
+                Ok(r) => r,
+                Err(e) => {
+                    res.violations.push(viol("aborted", "process".into(), "a model run ends by returning or unwinding".into(), e, json!({})));
+                    return res;
+                }
+            };
+            res.sample["other"] = json!(q.text());
+            let (rp, rq) = if mode == "pair" {
+                // back to back in this (long-lived) process
+                let rp = seq_report(p, &cfg);
+                let rq = seq_report(&q, &cfg);
+                (rp, rq)
+            } else {
+                // two OS threads at once
+                let (p2, q2, c1, c2) = (p.clone(), q.clone(), cfg.clone(), cfg.clone());
+                let h1 = std::thread::spawn(move || seq_report(&p2, &c1));
+                let h2 = std::thread::spawn(move || seq_report(&q2, &c2));
+                (h1.join().expect("model thread"), h2.join().expect("model thread"))
+            };
+            res.loom_iterations += (rp.sigs.len() + rq.sigs.len()) as u64;
+            for (name, solo, got, prog) in [("first", &solo_p, &rp, p), ("second", &solo_q, &rq, &q)] {
+                if solo.sigs != got.sigs || solo.verdict != got.verdict {
+                    res.violations.push(viol(
+                        "depends_on_other_model",
+                        format!("{} {} program differs from its fresh-process run", mode, name),
+                        "the results of a model run do not depend on other models in the process".into(),
+                        format!("{} (verdicts {} vs {})", first_diff(&solo.sigs, &got.sigs), solo.verdict, got.verdict),
+                        json!({"program": prog.text()}),
+                    ));
+                } else {
+                    res.traces_validated += got.sigs.len() as u64;
+                }
+            }
+        }
+        _ => {
+            // every iteration replayed in isolation from the checkpoint stored before it
+            let dir = tmpdir();
+            let file = format!("{}/iso.json", dir);
+            let mut c = cfg.clone();
+            c.checkpoint_file = Some(file.clone());
+            c.checkpoint_interval = Some(1);
+            c.snapshot_checkpoints = true;
+            c.fingerprint = true;
+            let full = seq_report(p, &c);
+            res.loom_iterations += full.sigs.len() as u64;
+            if full.sigs != solo_p.sigs {
+                res.violations.push(viol("depends_on_checkpointing", "full run".into(), "checkpointing does not change the exploration".into(), first_diff(&solo_p.sigs, &full.sigs), json!({})));
+            }
+            // identical fingerprint and main thread id at the start of every iteration
+            for (i, n) in full.notes.iter().enumerate() {
+                let fp: Vec<&(u8, u64, u64)> = n.iter().filter(|x| x.0 == 200 || x.0 == 201).collect();
+                let fp0: Vec<&(u8, u64, u64)> = full.notes[0].iter().filter(|x| x.0 == 200 || x.0 == 201).collect();
+                if fp != fp0 {
+                    res.violations.push(viol("dirty_initial_state", "fingerprint".into(), "every iteration starts from the same initial state".into(), format!("iteration {}: {:?} vs first {:?}", i + 1, fp, fp0), json!({})));
+                    break;
+                }
+                if n.iter().any(|x| x.0 == 201 && x.2 != 0) {
+                    res.violations.push(viol("dirty_initial_state", "main thread id".into(), "thread ids start again at the main thread".into(), format!("iteration {}", i + 1), json!({})));
+                    break;
+                }
+            }
+            let n = full.sigs.len();
+            let stride = if job.tier == "quick" { (n / 12).max(1) } else { 1 };
+            let mut i = 1;
+            while i <= n {
+                let snap = format!("{}.{}", file, i);
+                let one = format!("{}/one-{}.json", dir, i);
+                if std::fs::copy(&snap, &one).is_err() {
+                    res.machinery_error = Some(format!("checkpoint snapshot {} missing", snap));
+                    break;
+                }
+                let mut c1 = cfg.clone();
+                c1.checkpoint_file = Some(one.clone());
+                c1.checkpoint_interval = Some(1);
+                c1.max_permutations = Some(2);
+                match fresh_process_seq(p, &c1) {
+                    Ok(r) => {
+                        let strip = |s: &String| s.replace(" | PANICKED", "");
+                        let last_panics = i == n && solo_p.verdict != "Ok";
+                        let ok = r.sigs.len() == 1 && strip(&r.sigs[0]) == strip(&full.sigs[i - 1]) && (last_panics || r.verdict == "Ok");
+                        if !ok {
+                            res.violations.push(viol(
+                                "iteration_depends_on_history",
+                                format!("iteration {}", i),
+                                "an iteration replayed alone from its checkpoint equals the same iteration inside the full run".into(),
+                                format!("isolated: {:?} ({}); in the run: {}", r.sigs.first(), r.verdict, full.sigs[i - 1]),
+                                json!({}),
+                            ));
+                            break;
+                        }
+                        res.traces_validated += 1;
+                    }
+                    Err(e) => {
+                        res.violations.push(viol("aborted", "process".into(), "a model run ends by returning or unwinding".into(), e, json!({})));
+                        break;
+                    }
+                }
+                i += stride;
+            }
+            clean(&dir);
+        }
     }
     res
 }
